@@ -30,6 +30,7 @@ func runC01(c *Ctx, tier string) {
 	r.Rule("flags-table: status → flag mapping exact")
 	r.Rule("entry-points: nil guards, registry default, Version = module major version")
 	r.Rule("recover-wrapper; register-duplicate-name")
+	r.Rule("no-net-panic-ledger: in code reachable from CRL / OCSP lints (no recovery net) every panic obligation of C02 (unproven bounds, unchecked assertion, explicit panic, division, nil-able dereference, callee length requirement) is discharged")
 	r.Rule("loop-bounded: every loop / call cycle reachable in lint, util, lints/*, zlint has a recognised bound or a reviewed, witnessed ledger line")
 	r.Trusted = []string{"go/ssa", "Go map assignment semantics", "induction over the range loop (only the index is loop-carried — checked)"}
 	r.Assumptions = []string{"library functions called from lint code terminate (regexp, asn1, idna, big.Int, strings …); termination of zlint's own loops is decided by the loop-bounded rule"}
@@ -44,6 +45,20 @@ func runC01(c *Ctx, tier string) {
 	c01Entry(c, r)
 	recoverWrapper(c, r)
 	c01Termination(c, r)
+	// "no panic reaches the caller": certificate lints run under the recover net
+	// (recover-wrapper), CRL and OCSP lints do not — for the functions reachable from
+	// them every panic obligation of C02's ledger must be discharged
+	noNet := c02NoNetKinds(c, cs)
+	nNoNet := 0
+	c02Core(c, r, cs, func(s *panicSite) bool {
+		if noNet[s.fn] {
+			nNoNet++
+			return true
+		}
+		return false
+	})
+	r.Extra["panic_obligations_in_code_without_recovery_net"] = nNoNet
+	r.Floor("functions reachable from CRL/OCSP lints", 20, len(noNet))
 	r.Finish()
 }
 
